@@ -5,7 +5,7 @@ from . import lex, mon
 
 SPEC = {
     'rule': ('histories of 5-60 add_rule / delete_rule / add_dynamic_type / add_dynamic_type_item calls interleaved with evaluations, over a pool '
-             'of 17 rule specs (named NUMBER / TEXT / MONEY / PERCENT fields encoded into the returned number, two specs sharing a pattern, two '
+             'of 23 rule specs (named NUMBER / TEXT / MONEY / PERCENT fields encoded into the returned number, two specs sharing a pattern, two '
              'sharing a name, one declining, one for tr, one for an unknown language, one returning money, a word-group field and a Turkish operator word in patterns registered for tr) and 3 unit families (chains of 2-5 '
              'items with integer factors, duplicate family names and indices, an item for a missing family). Oracle: a model calculator '
              '(ordered surviving rules per language, families); return values and matching lines are judged against the model during the '
@@ -38,6 +38,14 @@ RULES = {
                                                                  'decline_unknown_text': True}},     # declines unknown coins, accepts known ones
     'P': {'lang': 'tr', 'patterns': ['çay {NUMBER:n}', '{NUMBER:n} kutu süt'], 'spec': {'name': 'r15', 'kind': 'encode', 'weights': {'n': 4}}},      # literal words with non-ASCII letters
     'Q': {'lang': 'en', 'patterns': ['café {NUMBER:n}'], 'spec': {'name': 'r15', 'kind': 'encode', 'weights': {'n': 9}}},
+    # fields of the other types (the value each field receives comes from built-in rules that ran before)
+    'R': {'lang': 'en', 'patterns': ['{DATE_TIME:when} meeting'], 'spec': {'name': 'r16', 'kind': 'const', 'value': 42}},
+    'S': {'lang': 'en', 'patterns': ['{DATE:d} deadline'], 'spec': {'name': 'r17', 'kind': 'const', 'value': 43}},
+    'T': {'lang': 'en', 'patterns': ['{TIME:t} alarm'], 'spec': {'name': 'r18', 'kind': 'const', 'value': 44}},
+    'U': {'lang': 'en', 'patterns': ['{DURATION:d} nap'], 'spec': {'name': 'r19', 'kind': 'encode', 'weights': {'d': 1}}},
+    'V': {'lang': 'en', 'patterns': ['{MONTH:m} report'], 'spec': {'name': 'r20', 'kind': 'encode', 'weights': {'m': 1}}},
+    # a custom rule whose name is the function name of a built-in rule
+    'W': {'lang': 'en', 'patterns': ['wibble {NUMBER:n}'], 'spec': {'name': 'number_of', 'kind': 'encode', 'weights': {'n': 2}}},
     'M': {'lang': 'en', 'patterns': ['{GROUP:label:hour_group} {NUMBER:n}'], 'spec': {'name': 'r11', 'kind': 'encode', 'weights': {'n': 61}}},
 }
 
@@ -51,6 +59,7 @@ FAMILIES = {
     'qfam': [('qa', None), ('qb', 2), ('qc', 4), ('qd', 10), ('qe', 3)],      # (unit word, factor from the previous item)
     'wfam': [('wa', None), ('wb', 5)],
     'vfam': [('va', None), ('vb', 8), ('vc', 2)],
+    'pfam': [('Pq', None), ('hPq', 100), ('kPq', 10)],            # unit names with capital letters
 }
 
 
@@ -72,6 +81,14 @@ def probes():
     out.append(('en', 'hours 5', '{GROUP:label:hour_group} {NUMBER:n}', {'n': 5}))
     out.append(('en', 'hour 9', '{GROUP:label:hour_group} {NUMBER:n}', {'n': 9}))
     out.append(('en', 'dozen', 'dozen', {}))
+    out.append(('en', '12 march 2020 at 11:30 meeting', '{DATE_TIME:when} meeting', {}))
+    out.append(('en', '1584012600 to date meeting', '{DATE_TIME:when} meeting', {}))
+    out.append(('en', '12 march 2020 deadline', '{DATE:d} deadline', {}))
+    out.append(('en', '11:30 alarm', '{TIME:t} alarm', {}))
+    out.append(('en', '2 hours nap', '{DURATION:d} nap', {'d': 7200}))
+    out.append(('en', 'march report', '{MONTH:m} report', {'m': 3}))
+    out.append(('en', 'wibble 21', 'wibble {NUMBER:n}', {'n': 21}))
+    out.append(('en', '10% of 200', '(built-in)', {}))
     out.append(('tr', 'çay 3', 'çay {NUMBER:n}', {'n': 3}))
     out.append(('tr', 'ÇAY 3', 'çay {NUMBER:n}', {'n': 3}))
     out.append(('tr', 'Çay 3', 'çay {NUMBER:n}', {'n': 3}))
@@ -337,7 +354,7 @@ def run_shard(ctx):
                 hist.append('add_rule %s' % rid)
             elif r < 0.45:
                 lang = rng.choice(['en', 'en', 'tr', 'xx'])
-                name = rng.choice(['r1', 'r2', 'r3', 'r5', 'r6', 'r8', 'r9', 'r10', 'r11', 'r12', 'r13', 'r14', 'r15', 'nope'])
+                name = rng.choice(['r1', 'r2', 'r3', 'r5', 'r6', 'r8', 'r9', 'r10', 'r11', 'r12', 'r13', 'r14', 'r15', 'r16', 'r17', 'r18', 'r19', 'r20', 'nope', 'number_of', 'number_of', 'convert_money', 'small_date'])
                 want = model.delete_rule(lang, name)
                 ops.append({'op': 'delete_rule', 'lang': lang, 'name': name})
                 meta[len(ops) - 1] = ('ret', 'delete_rule(%s, %s)' % (lang, name), want)
